@@ -1,10 +1,14 @@
 import BppModel.Proto
-import BppModel.LU
+import BppModel.LUStore
 /-
 Driver for C05 (LUDecomposition.h, MatrixTools::inv/det).
 
-Model answers are produced by the `Float` instantiation of `Bpp.LU` (compared bit-for-bit with
-the implementation).  Verdicts are the property's predicates (`LU.UnitLower`, `LU.Upper`,
+Model answers are produced by the `Float` instantiation of the statement-level model
+`Bpp.LUS` (`BppModel/LUStore.lean`: every loop in source order, every element access through
+`get`/`set`/`resize` of the storage class named on the `case` line, the in/out parameters `X` / `x`
+kept in the state of the case and passed in whatever state the previous operations left them), and
+compared bit-for-bit with the implementation.  `Props/C05Storage.lean` proves that these answers
+are those of the abstract model `Bpp.LU` (`BppModel/LU.lean`) which the property theorems are about.  Verdicts are the property's predicates (`LU.UnitLower`, `LU.Upper`,
 `LU.PivInjective`, `permuteRows piv A = matMul L U`, `matMul A X = B`, determinant, indicator,
 singularity guard) evaluated *exactly in `Rat`* on the implementation's answers; where the
 implementation rounds, the equations are required up to the standard componentwise
@@ -12,7 +16,7 @@ backward-error bounds (Higham, Accuracy and Stability of Numerical Algorithms, T
 also evaluated in `Rat`.
 -/
 namespace Bpp.Drive.C05
-open Bpp Bpp.Proto Bpp.LU
+open Bpp Bpp.Proto Bpp.LU Bpp.Mx Bpp.LUS
 
 /-- a matrix whose shape is known only at run time -/
 structure AnyMat (α : Type) where
@@ -48,7 +52,7 @@ def showF (x : Float) : String := Hex.ofFloatCanon x
 def showMat {m n : Nat} (M : Mat Float m n) : String :=
   " ".intercalate (toString m :: toString n :: (entries M).map showF)
 
-def showErr : Err → String
+def showErr : LU.Err → String
   | .ub => "ub"
   | .badInteger => "exc:bpp"
   | .zeroDivision => "exc:zerodiv"
@@ -134,20 +138,46 @@ def diagMinAbs {n : Nat} (U : Mat Rat n n) : Option Rat :=
     | none => some c
     | some d => some (if c < d then c else d)) none
 
-/-- the current decomposition object -/
+/-- the current decomposition object: the abstract state (used by the verdicts) and the
+statement-level object (used for the answers) -/
 structure Cur where
   m : Nat
   n : Nat
   A : Mat Float m n
   h : n ≤ m
   s : State Float m n
+  ss : StateS Float
 
+/-- state of a case: the storage classes of `A`, `B`, `X` named on the `case` line, the current
+object, and the in/out parameters (`X` of `solve`/`inv`, `x` of the vector overload), which persist
+from one operation to the next -/
 structure St where
+  kA : Kind := .row
+  kB : Kind := .row
+  kX : Kind := .row
   cur : Option Cur := none
+  X : Store Float := Store.empty .row
+  xv : Array Float := #[]
 
-def showLu {m n : Nat} (h : n ≤ m) (s : State Float m n) : String :=
-  "piv " ++ " ".intercalate (s.piv.toList.map fun p => toString p.val)
-    ++ " ; L " ++ showMat (getL s) ++ " ; U " ++ showMat (getU h s) ++ " ; det " ++ showF (det s)
+def kind? (s : String) : Kind := if s == "col" then .col else if s == "lin" then .lin else .row
+
+def initSt (l : List String) : St :=
+  let k := fun (i : Nat) => kind? (l.getD i "row")
+  { kA := k 1, kB := k 2, kX := k 3, X := Store.empty (k 3) }
+
+/-- an operand of class `k` with the given entries (`K(r, c)` followed by assignments) -/
+def storeOf (k : Kind) (M : AnyMat Float) : Store Float := Store.ofFn k M.m M.n (fun i j => fnOf M.M i j)
+
+def showStore (S : Store Float) : String :=
+  " ".intercalate (toString S.nrows :: toString S.ncols ::
+    ((List.range S.nrows).flatMap fun i => (List.range S.ncols).map fun j => showF (S.entry i j)))
+
+def showLuS (ss : StateS Float) : String :=
+  match getLS ss, getUS ss, detS ss with
+  | .ok L, .ok U, .ok d =>
+    "piv " ++ " ".intercalate (ss.piv.toList.map toString)
+      ++ " ; L " ++ showStore L ++ " ; U " ++ showStore U ++ " ; det " ++ showF d
+  | _, _, _ => "ub"
 
 /-- determinant clauses for a square factorisation -/
 def luSquareVerdict {n : Nat} (Ar : Mat Rat n n) (piv : Vector (Fin n) n) (Lr Ur : Mat Rat n n) (dr : Rat) : String :=
@@ -213,10 +243,15 @@ def solveVerdict {n mb nx : Nat} (A : Mat Float n n) (s : State Float n n) (B : 
         | _, _ => "FAIL:parse"
       | _ => "FAIL:parse"
 
-def showSolve {m nx : Nat} (r : Except Err (Float × Mat Float m nx)) : String :=
+def showSolveS (r : LUS.Res (Float × Store Float)) : String :=
   match r with
   | .error e => showErr e
-  | .ok (d, X) => "minD " ++ showF d ++ " ; X " ++ showMat X
+  | .ok (d, X) => "minD " ++ showF d ++ " ; X " ++ showStore X
+
+def showDet (r : LUS.Res Float) : String :=
+  match r with
+  | .ok d => showF d
+  | .error e => showErr e
 
 /-- |d − exact det| within the rigorous tolerance, using the model's own factors of `A` -/
 def detClose {n : Nat} (A : Mat Float n n) (d : Float) (exact : Rat) : Bool :=
@@ -236,21 +271,36 @@ def squareOf {α : Type} (X : AnyMat α) : Option ((n : Nat) × Mat α n n) :=
 
 def step (st : St) (op : List String) (impl : Option (List String)) : St × String × String :=
   match op with
+  | "xset" :: rest =>
+    -- the output matrix becomes a fresh matrix of class `kX` with the given shape and contents
+    match parseMat rest with
+    | some (M, []) => ({ st with X := storeOf st.kX M }, "ok", "-")
+    | _ => (st, "bad-op", "-")
+  | "xvset" :: k :: rest =>
+    match parseMat (k :: "1" :: rest) with
+    | some (M, []) => ({ st with xv := (entries M.M).toArray }, "ok", "-")
+    | _ => (st, "bad-op", "-")
   | "lu" :: rest =>
     match parseMat rest with
     | some (⟨m, n, A⟩, []) =>
-      if h : n ≤ m then
-        let s := factor h A
-        let v := match impl with
-          | none => "-"
-          | some t => luVerdict A t
-        ({ cur := some ⟨m, n, A, h, s⟩ }, showLu h s, v)
-      else ({ cur := none }, "ub", "-")
+      match constructS (storeOf st.kA ⟨m, n, A⟩) with
+      | .error e => ({ st with cur := none }, showErr e, "-")
+      | .ok ss =>
+        if h : n ≤ m then
+          let s := factor h A
+          let v := match impl with
+            | none => "-"
+            | some t => luVerdict A t
+          ({ st with cur := some ⟨m, n, A, h, s, ss⟩ }, showLuS ss, v)
+        else ({ st with cur := none }, "ub", "-")
     | _ => (st, "bad-op", "-")
   | "solve" :: rest =>
     match st.cur, parseMat rest with
     | some c, some (⟨mb, nx, B⟩, []) =>
-      let out := showSolve (solve c.s B)
+      let r := solveS c.ss (storeOf st.kB ⟨mb, nx, B⟩) st.X
+      let st' := match r with
+        | .ok (_, X') => { st with X := X' }
+        | .error _ => st
       let v := match impl with
         | none => "-"
         | some t =>
@@ -259,18 +309,42 @@ def step (st : St) (op : List String) (impl : Option (List String)) : St × Stri
             let s : State Float c.n c.n := h ▸ c.s
             solveVerdict A s B t
           else "-"
-      (st, out, v)
+      (st', showSolveS r, v)
     | none, _ => (st, "no-lu", "-")
     | _, _ => (st, "bad-op", "-")
-  | "solvev" :: mb :: rest =>
-    -- the vector overload: the answer is printed as a one-column matrix
+  | "solveip" :: rest =>
+    -- `solve(B, B)`: the right-hand side (of the class of `X`) is also the output
+    match st.cur, parseMat rest with
+    | some c, some (⟨mb, nx, B⟩, []) =>
+      let Bs := storeOf st.kX ⟨mb, nx, B⟩
+      let r := solveSelfS c.ss Bs
+      let st' := match r with
+        | .ok (_, X') => { st with X := X' }
+        | .error _ => { st with X := Bs }
+      let v := match impl with
+        | none => "-"
+        | some t =>
+          if h : c.m = c.n then
+            let A : Mat Float c.n c.n := h ▸ c.A
+            let s : State Float c.n c.n := h ▸ c.s
+            solveVerdict A s B t
+          else "-"
+      (st', showSolveS r, v)
+    | none, _ => (st, "no-lu", "-")
+    | _, _ => (st, "bad-op", "-")
+  | "solvevip" :: mb :: rest =>
+    -- `solve(b, b)` of the vector overload
     match st.cur, parseMat (mb :: "1" :: rest) with
     | some c, some (⟨_, nx, B⟩, []) =>
-      if hx : nx = 1 then
-        let b : Vector Float _ := Vector.ofFn fun i => B.get i ⟨0, by omega⟩
-        let out := match solveVec c.s b with
+      if nx = 1 then
+        let b : Array Float := (entries B).toArray
+        let r := solveVecS c.ss b b
+        let st' := match r with
+          | .ok (_, x') => { st with xv := x' }
+          | .error _ => { st with xv := b }
+        let out := match r with
           | .error e => showErr e
-          | .ok (d, x) => "minD " ++ showF d ++ " ; X " ++ showMat (colMat x)
+          | .ok (d, x) => "minD " ++ showF d ++ " ; X " ++ " ".intercalate (toString x.size :: "1" :: x.toList.map showF)
         let v := match impl with
           | none => "-"
           | some t =>
@@ -279,27 +353,70 @@ def step (st : St) (op : List String) (impl : Option (List String)) : St × Stri
               let s : State Float c.n c.n := h ▸ c.s
               solveVerdict A s B t
             else "-"
-        (st, out, v)
+        (st', out, v)
+      else (st, "bad-op", "-")
+    | none, _ => (st, "no-lu", "-")
+    | _, _ => (st, "bad-op", "-")
+  | "solvev" :: mb :: rest =>
+    -- the vector overload: the answer is printed as a one-column matrix
+    match st.cur, parseMat (mb :: "1" :: rest) with
+    | some c, some (⟨_, nx, B⟩, []) =>
+      if nx = 1 then
+        let b : Array Float := (entries B).toArray
+        let r := solveVecS c.ss b st.xv
+        let st' := match r with
+          | .ok (_, x') => { st with xv := x' }
+          | .error _ => st
+        let out := match r with
+          | .error e => showErr e
+          | .ok (d, x) => "minD " ++ showF d ++ " ; X " ++ " ".intercalate (toString x.size :: "1" :: x.toList.map showF)
+        let v := match impl with
+          | none => "-"
+          | some t =>
+            if h : c.m = c.n then
+              let A : Mat Float c.n c.n := h ▸ c.A
+              let s : State Float c.n c.n := h ▸ c.s
+              solveVerdict A s B t
+            else "-"
+        (st', out, v)
       else (st, "bad-op", "-")
     | none, _ => (st, "no-lu", "-")
     | _, _ => (st, "bad-op", "-")
   | "inv" :: rest =>
     match parseMat rest with
     | some (X, []) =>
-      let out := showSolve (inv X.M)
+      let r := invS (storeOf st.kA X) st.X
+      let st' := match r with
+        | .ok (_, O') => { st with X := O' }
+        | .error _ => st
       let v := match impl, squareOf X with
         | some t, some ⟨n, A⟩ =>
           solveVerdict A (factor (Nat.le_refl n) A) (identity n : Mat Float n n) t
         | some t, none => if t == ["exc:dimension"] then "ok" else "FAIL:inv_nonsquare_raises"
         | none, _ => "-"
-      (st, out, v)
+      (st', showSolveS r, v)
+    | _ => (st, "bad-op", "-")
+  | "invip" :: rest =>
+    -- `MatrixTools::inv(A, A)`: operand and output are the same object; the constructor has copied
+    -- `A` before `O` is resized and `A` is not read afterwards, so the call is `invS A A`
+    match parseMat rest with
+    | some (X, []) =>
+      let A := storeOf st.kX X
+      let r := invS A A
+      let st' := match r with
+        | .ok (_, O') => { st with X := O' }
+        | .error _ => { st with X := A }
+      let v := match impl, squareOf X with
+        | some t, some ⟨n, A⟩ =>
+          solveVerdict A (factor (Nat.le_refl n) A) (identity n : Mat Float n n) t
+        | some t, none => if t == ["exc:dimension"] then "ok" else "FAIL:inv_nonsquare_raises"
+        | none, _ => "-"
+      (st', showSolveS r, v)
     | _ => (st, "bad-op", "-")
   | "det" :: rest =>
     match parseMat rest with
     | some (X, []) =>
-      let out := match matDet X.M with
-        | .ok d => showF d
-        | .error e => showErr e
+      let out := showDet (matDetS (storeOf st.kA X))
       let v := match impl, squareOf X with
         | some [t], some ⟨_, A⟩ =>
           match flt? t with
@@ -314,12 +431,9 @@ def step (st : St) (op : List String) (impl : Option (List String)) : St × Stri
     match parseMat (n :: n :: rest) with
     | some (X, []) =>
       match squareOf X with
-      | some ⟨_, A⟩ =>
+      | some ⟨k, A⟩ =>
         let At := transpose A
-        let sh := fun (r : Except Err Float) => match r with
-          | .ok d => showF d
-          | .error e => showErr e
-        let out := sh (matDet A) ++ " " ++ sh (matDet At)
+        let out := showDet (matDetS (storeOf st.kA ⟨k, k, A⟩)) ++ " " ++ showDet (matDetS (storeOf st.kB ⟨k, k, At⟩))
         let v := match impl with
           | some [t1, t2] =>
             match flt? t1, flt? t2 with
@@ -344,10 +458,8 @@ def step (st : St) (op : List String) (impl : Option (List String)) : St × Stri
           -- product formed as in the harness: acc = 0; acc += A(i,l)*B(l,j), l increasing
           let C : Mat Float k k := Mat.ofFn fun i j =>
             Fin.foldl k (fun acc l => acc + A.get i l * B.get l j) 0.0
-          let sh := fun (r : Except Err Float) => match r with
-            | .ok d => showF d
-            | .error e => showErr e
-          let out := sh (matDet A) ++ " " ++ sh (matDet B) ++ " " ++ sh (matDet C)
+          let out := showDet (matDetS (storeOf st.kA ⟨k, k, A⟩)) ++ " " ++ showDet (matDetS (storeOf st.kB ⟨k, k, B⟩))
+            ++ " " ++ showDet (matDetS (storeOf st.kX ⟨k, k, C⟩))
           let v := match impl with
             | some [t1, t2, t3] =>
               match flt? t1, flt? t2, flt? t3 with
@@ -369,6 +481,6 @@ def step (st : St) (op : List String) (impl : Option (List String)) : St × Stri
     | none => (st, "bad-op", "-")
   | _ => (st, "bad-op", "-")
 
-def machine : Machine St := { init := fun _ => {}, step := step }
+def machine : Machine St := { init := initSt, step := step }
 
 end Bpp.Drive.C05
